@@ -398,6 +398,10 @@ pub fn gen_macro_run(seed: u64, fixtures: &[crate::procsim::CorpusDoc]) -> Macro
         };
         if rng.chance(1, 3) && crate::procsim::is_fake_crate(name) {
             let key = rng.pick(&["renamed", "other-name", "alt_2"]).to_string();
+            // the option block is a map: a key can appear once
+            if o.crates.iter().any(|c| c.0 == key) {
+                continue;
+            }
             o.crates.push((key, Some(name.to_string()), version));
         } else {
             o.crates.push((name.to_string(), None, version));
